@@ -32,6 +32,25 @@ macro_rules! debug_assert_eq { ($a:expr, $b:expr $(, $($rest:tt)*)?) => { vasser
 macro_rules! debug_assert_ne { ($a:expr, $b:expr $(, $($rest:tt)*)?) => { vassert($a != $b) } }
 macro_rules! unreachable { ($($rest:tt)*) => { vunreachable() } }
 
+// ---- R8: "which element of this Vec is this reference" ----------------------------------------
+/// Stands for the four-statement raw-pointer idiom of `Arena::get_node_id` (`as_ptr_range().contains(&p)` followed by
+/// `(p as usize - start as usize) / size_of::<Node<T>>()`), which Verus cannot read.  TRUSTED: a `&Node<T>` that
+/// points into the buffer of a `Vec<Node<T>>` points at one of its elements, and the quotient is that element's
+/// index; a reference outside the buffer gives `None`.  Verus has value semantics for shared references, so the
+/// specification can only say that the element at the returned index *is* the referenced node.
+#[verifier::external_body]
+pub fn vx_slice_position<T>(v: &Vec<Node<T>>, node: &Node<T>) -> (r: Option<usize>)
+    ensures
+        r is Some ==> r->0 < v@.len() && v@[r->0 as int] == *node,
+{
+    let nodes_range = v.as_ptr_range();
+    let p = node as *const Node<T>;
+    if !nodes_range.contains(&p) {
+        return None;
+    }
+    Some((p as usize - nodes_range.start as usize) / core::mem::size_of::<Node<T>>())
+}
+
 // ---- must-panic variants (thorough tier, C05/C12): `expect` / `assert!` return only when they do not panic ----
 #[verifier::external_body]
 pub fn expect_mp<T, E>(r: Result<T, E>) -> (v: T)
